@@ -461,6 +461,9 @@ Definition obs_C07 (hist : list op) (b a : snapshot) (evs : list event) (ret : Z
 
 (* C08: the RadioText A/B protocol *)
 Definition is_rt_event (e : event) : bool := field_eqb (ev_field e) FRT.
+(* "the buffer holds something", read off the cells themselves (not off the availability getter,
+   whose consistency with the cells is C16's business): some cell was received *)
+Definition cells_avail (t : tsnap) : bool := existsb (fun p => negb (snd p =? 10)) (ts_cells t).
 Definition obs_C08 (hist : list op) (b a : snapshot) (evs : list event) (ret : Z) : bool :=
   match hist with
   | [] => true
@@ -482,7 +485,7 @@ Definition obs_C08 (hist : list op) (b a : snapshot) (evs : list event) (ret : Z
           && (length rte <=? 1)%nat
           && if rt_ignored hist g then
                tsnap_eqb ta tb && match rte with [] => true | _ => false end
-             else if rt_switch hist g && ts_avail tb then
+             else if rt_switch hist g && cells_avail tb then
                (* the selected buffer is emptied first; the callback reports it *)
                all_cells n (fun i => addressed ws sl i || pair_eqb (tcell ta i) empty_pair)
                && (if h_cb hist FRT =? 0 then true else (length rte =? 1)%nat)
